@@ -626,11 +626,11 @@ def run_proto(ctx, res: Result, root):
             one(ds.RandomChooser(rng.randrange(1 << 30), switch_prob=0.4, tick_prob=0.0), scen, "random")
         if ctx.thorough:
             n = 0
-            for _ in ds.explore(lambda ch: one(ch, scen, "explore"), preemption_bound=2, max_runs=1200):
+            for _ in ds.explore(lambda ch: one(ch, scen, "explore"), preemption_bound=2, max_runs=3000):
                 n += 1
             res.hist("explore_runs", f"{scen[0]}:{n}")
     if ctx.thorough:
-        res.notes.append("thorough: ds.explore, every schedule with <= 2 pre-emptions per scenario (capped at 1200 runs each)")
+        res.notes.append("thorough: ds.explore, every schedule with <= 2 pre-emptions per scenario (capped at 3000 runs each)")
     check_lockstep(res, batch)
 
 
@@ -812,7 +812,8 @@ def tree():
 h = FileSystemEventHandler()
 out = []
 ob = Observer(); ob.start()
-kinds = ["sched-unsched", "sched-missing", "start-stop", "start-missing", "sched-events-unsched", "root-deleted", "sched-file-missing-parent"]
+kinds = ["sched-unsched", "sched-missing", "start-stop", "start-missing", "sched-events-unsched", "root-deleted",
+         "sched-file-missing-parent", "inotify-close-unread", "buffer-create-close"]
 try:
     for i in range(cycles):
         kind = kinds[i % len(kinds)] if i < 2 * len(kinds) else rng.choice(kinds)
@@ -839,6 +840,12 @@ try:
                     open(os.path.join(d, "a", "f%d" % j), "w").close()
                 os.mkdir(os.path.join(d, "newdir"))
                 ob.unschedule(w)
+            elif kind == "inotify-close-unread":
+                from watchdog.observers.inotify_c import Inotify
+                d = tree(); ino = Inotify(os.fsencode(d), recursive=True); ino.close()
+            elif kind == "buffer-create-close":
+                from watchdog.observers.inotify_buffer import InotifyBuffer
+                d = tree(); b = InotifyBuffer(os.fsencode(d), recursive=True); b.close()
             elif kind == "root-deleted":
                 d = tree(); w = ob.schedule(h, d, recursive=True)
                 em = next(e for e in ob.emitters if e.watch == w)
